@@ -33,19 +33,4 @@ def stepTL (σ : TL.Store) (r : TL.Record) (acc : Fan) (c : TL.Handler) : Fan :=
 def handleTL (σ : TL.Store) (ss : Sinks) (m : Handler) (r : TL.Record) : Fan :=
   m.children.foldl (stepTL σ r) { sinks := ss }
 
-/-- an argument of `multilog.New`: a tracelog handler, or a fan-out handler made earlier -/
-inductive Kid where
-  | leaf (h : TL.Handler)
-  | fan (m : Handler)
-
-/-- NESTING IS TRANSPARENT: a fan-out handler given to `multilog.New` behaves as if its children had been given in its
-    place — the inner `Handle` calls each of its enabled children under its own `runHandler`, accumulates with
-    `errs.Append` and hands back nil or one aggregate, which the outer `errs.Append` flattens in order; the inner
-    `Enabled` is "some child is enabled"; `WithGroup` / `WithAttrs` reach every leaf.  The model therefore keeps the
-    flat list of leaves; that the real nested handlers behave like it is carried by the correspondence stream. -/
-def flatChildren (ks : List Kid) : List TL.Handler :=
-  ks.flatMap fun k => match k with
-    | .leaf h => [h]
-    | .fan m => m.children
-
 end ML
